@@ -1,20 +1,112 @@
-import Verif.Model.Lin.Linearity
-import Verif.Spec.Paths
+import Verif.Proofs.Lin.Sound
 /-!
 # C03 — The checker rejects every resource-linearity violation
+
+Model: `Verif.Model.Lin.Linearity` — a port of the checker's resource tracking (`linCheck`), tied to
+`/repo/sema` by the stream `lin` (the multiset of error kinds of the real checker equals the port's
+on the real parser's AST).  Judge: `Verif.Spec.Paths` — path semantics, `AllLinear f` = every path of
+`f` is linear.
+
+Full-strength statements (the property):
+  sound    : names unique → linCheck f = [] → AllLinear f
+  complete : names unique → no unreachable statement → AllLinear f → linCheck f = []
+Both are FALSE for the code as it is: `unsound_witness_loop_then_halt` and the four
+`incomplete_witness_*` theorems below are counterexamples in the port, replayed on the Go checker
+by the stream (corpus/lin/findings.txt; known findings of C03).
+
+Proved: `sound_straightline_partial` — soundness for functions without conditionals and loops
+(declarations, moves, destroy, uses, swap, return, panic, unreachable-statement handling), with the
+abstraction invariant `Verif.Proofs.Lin.Inv` (no recorded invalidation ⇒ valid on the path,
+definite invalidation ⇒ gone, exactly the variables in scope are present).  Missing for the full
+fragment: the merge cases (`if/else`, optional binding: needs the characterisation `merged_get` of
+`Resources.MergeBranches`, proved in `Proofs/Lin/Check.lean`, carried through the induction) and
+loops (false as stated, see the witness; true under "no `panic` after a loop").
 -/
 namespace Verif.Properties.C03
 open Verif.Model.Lin Verif.Spec.Paths
+
+/-- **Soundness, straight-line fragment.**  If the port of the checker reports nothing for a
+    function without conditionals and loops, every path of the function is linear. -/
+theorem sound_straightline_partial (f : Fn) (hfrag : f.body.hasBranch = false)
+    (hnames : (f.params.map (·.1) ++ f.body.declNames).Nodup) (h : linCheck f = []) : AllLinear f :=
+  Verif.Proofs.Lin.sound_fn_straight f hfrag hnames h
+
+/-- non-vacuity: an accepted function with a parameter, a move, a use and an early return -/
+example : ∃ f : Fn, f.body.hasBranch = false ∧ (f.params.map (·.1) ++ f.body.declNames).Nodup ∧ linCheck f = [] ∧
+    f.body ≠ .nop :=
+  ⟨{ params := [("p", 1)],
+     body := .ofList [.atom (.letR "r" 10 (.move "p" 15)), .atom (.use "r"), .atom (.destroy "r" 30), .atom .ret] },
+   by decide, by decide, by decide, by decide⟩
+
+/-- the merge of `Resources.MergeBranches`, pointwise: the invalidation of `x` after the branches is
+    the outer one if there is one, else `mergeResourceInfos` of the branches' (all states, all
+    variables; the lemma the conditional case of soundness rests on) -/
+theorem merge_pointwise (s : St) (ti : Invs) (tri : RI) (e : Option (Invs × RI)) (x : Var) :
+    Invs.get (s.merged (mergeInvs s.inv ti tri e)).inv x =
+      (match Invs.get s.inv x with
+       | some k => some k
+       | none => mergeInfos (Invs.get ti x) tri (e.map fun p => (Invs.get p.1 x, p.2))) :=
+  Verif.Proofs.Lin.merged_get s ti tri e x
+
+/-- errors are only ever added: a statement checked from a state with an error ends with an error -/
+theorem errors_accumulate (t : Stmt) (s : St) : ∃ l, (check s t).errs = l ++ s.errs :=
+  Verif.Proofs.Lin.check_errs t s
+
+/-! ## Findings -/
 
 /-- `let r <- create R(); while c { destroy r }; panic("")` -/
 def loopHaltFn : Fn :=
   { params := [], body := .ofList [.atom (.letR "r" 10 .create), .while (.ofList [.atom (.destroy "r" 40)]), .atom .panic] }
 
-/-- **Finding (unsound)**: the port of the checker accepts a function with a path (two loop
-    iterations) that destroys `r` twice. -/
+/-- **Finding (unsound)**: the checker accepts a function with a path (two loop iterations) that
+    destroys `r` twice: the potential invalidation after the loop is only ever reported as a loss
+    at the end of `r`'s scope, and a halt suppresses that report. -/
 theorem unsound_witness_loop_then_halt :
     linCheck loopHaltFn = [] ∧ ∃ p ∈ fnPathsN 2 loopHaltFn, ¬ Linear p.1 := by
   refine ⟨by decide, ?_⟩
   exact ⟨([.create "r", .destroy "r", .scopeEnd [], .destroy "r", .scopeEnd []], .halt), by decide, by decide⟩
+
+/-- `while c { let x <- create R(); if c { destroy x; break }; destroy x }` -/
+def breakFn : Fn :=
+  { params := [], body := .ofList [.while (.ofList [.atom (.letR "x" 10 .create),
+      .ite (.ofList [.atom (.destroy "x" 30), .atom (.brk 40)]) .nop, .atom (.destroy "x" 60)])] }
+
+/-- **Finding (incomplete)**: cleanup before `break`/`continue` in a branch: the branch does not
+    "definitely return", so its invalidation is merged as potential. -/
+theorem incomplete_witness_break : linCheck breakFn ≠ [] ∧ allLinearN 2 breakFn = true := by
+  exact ⟨by decide, by decide⟩
+
+/-- `let r <- create R(); if c { destroy r; panic("") }; destroy r` -/
+def haltBranchFn : Fn :=
+  { params := [], body := .ofList [.atom (.letR "r" 10 .create),
+      .ite (.ofList [.atom (.destroy "r" 30), .atom .panic]) .nop, .atom (.destroy "r" 60)] }
+
+/-- **Finding (incomplete)**: a branch that invalidates and then halts. -/
+theorem incomplete_witness_halt : linCheck haltBranchFn ≠ [] ∧ allLinearN 2 haltBranchFn = true := by
+  exact ⟨by decide, by decide⟩
+
+/-- `fun f(p) { if c { if c { destroy p; return } else { destroy p; return } } else { destroy p } }` -/
+def nestedReturnFn : Fn :=
+  { params := [("p", 1)], body := .ofList [
+      .ite (.ofList [.ite (.ofList [.atom (.destroy "p" 20), .atom .ret]) (.ofList [.atom (.destroy "p" 40), .atom .ret])])
+           (.ofList [.atom (.destroy "p" 60)])] }
+
+/-- **Finding (incomplete)**: both inner branches invalidate and return: the inner merge forgets the
+    invalidation, the outer merge then sees "only the else branch invalidates" and, because the
+    then branch returned (not halted), makes it potential. -/
+theorem incomplete_witness_nested_return : linCheck nestedReturnFn ≠ [] ∧ allLinearN 2 nestedReturnFn = true := by
+  exact ⟨by decide, by decide⟩
+
+/-- `let r <- create R(); while c { if c { continue }; destroy r; return }; destroy r` -/
+def jumpBeforeFn : Fn :=
+  { params := [], body := .ofList [.atom (.letR "r" 10 .create),
+      .while (.ofList [.ite (.ofList [.atom (.cont 30)]) .nop, .atom (.destroy "r" 50), .atom .ret]),
+      .atom (.destroy "r" 80)] }
+
+/-- **Finding (incomplete)**: a jump between the declaration and the invalidation makes the
+    invalidation potential although the path through the jump never reaches it. -/
+theorem incomplete_witness_jump_before_invalidation :
+    linCheck jumpBeforeFn ≠ [] ∧ allLinearN 2 jumpBeforeFn = true := by
+  exact ⟨by decide, by decide⟩
 
 end Verif.Properties.C03
